@@ -3,6 +3,7 @@ package rules
 import (
 	"encoding/json"
 	"fmt"
+	"go/ast"
 	"go/token"
 	"go/types"
 	"os"
@@ -521,13 +522,221 @@ func checkTypeStorage(c *core.Ctx, prog *core.Prog) {
 			}
 		}
 	}
+	checkHitGuards(c, r, prog, fieldOf)
+}
+
+// checkHitGuards: in every function that inserts into a tstorage map, what lets it carry on after finding an
+// existing entry is enumerated and must equal the reviewed list (tables/tstorage_guards.json).
+func checkHitGuards(c *core.Ctx, r *core.Rule, prog *core.Prog, fieldOf func(ssa.Value) string) {
+	var tab struct {
+		Entries []struct {
+			Key    string   `json:"key"`
+			Guards []string `json:"guards"`
+			Reason string   `json:"reason"`
+		} `json:"entries"`
+	}
+	b, err := os.ReadFile(filepath.Join(c.VerifDir, "tables", "tstorage_guards.json"))
+	if err != nil {
+		r.Undecided("table:tstorage_guards", "-", err.Error())
+		return
+	}
+	if err := json.Unmarshal(b, &tab); err != nil {
+		r.Undecided("table:tstorage_guards", "-", err.Error())
+		return
+	}
+	reviewed := map[string]map[string]bool{}
+	for _, e := range tab.Entries {
+		m := map[string]bool{}
+		for _, g := range e.Guards {
+			m[g] = true
+		}
+		reviewed[e.Key] = m
+	}
+	gen := prog.ByPath[pkgGen]
+	for _, fn := range core.PkgFuncs(prog.SSA, gen) {
+		inserts := map[string]bool{}
+		for _, bl := range fn.Blocks {
+			for _, in := range bl.Instrs {
+				if mu, ok := in.(*ssa.MapUpdate); ok {
+					if f := fieldOf(mu.Map); f != "" {
+						inserts[f] = true
+					}
+				}
+			}
+		}
+		if len(inserts) == 0 {
+			continue
+		}
+		ord := map[string]int{}
+		for _, bl := range fn.Blocks {
+			for _, in := range bl.Instrs {
+				lk, ok := in.(*ssa.Lookup)
+				if !ok || !lk.CommaOk {
+					continue
+				}
+				f := fieldOf(lk.X)
+				if f == "" || !inserts[f] {
+					continue
+				}
+				base := fmt.Sprintf("tstorage-hit:%s:%s", fnKey(fn), f)
+				key := fmt.Sprintf("%s#%d", base, ord[base])
+				ord[base]++
+				guards := hitGuards(fn, lk)
+				if os.Getenv("OGENVERIF_TRACE") != "" {
+					fmt.Fprintf(os.Stderr, "HITGUARD\t%s\t%s\n", key, strings.Join(guards, " | "))
+				}
+				if len(guards) == 0 {
+					r.Pass(fmt.Sprintf("%s at %s: a hit always ends in an error return", key, c.Pos(lk.Pos())))
+					continue
+				}
+				var fresh []string
+				for _, g := range guards {
+					if !reviewed[key][g] {
+						fresh = append(fresh, g)
+					}
+				}
+				if len(fresh) == 0 {
+					r.Justified++
+					r.Pass(fmt.Sprintf("%s at %s: carries on after a hit only under the reviewed conditions: %s", key, c.Pos(lk.Pos()), strings.Join(guards, " | ")))
+					continue
+				}
+				r.Fail(key, c.Pos(lk.Pos()), fmt.Sprintf("after finding an existing entry in tstorage.%s, %s carries on (overwriting it) under a condition that is not in the reviewed list: %s", f, fnKey(fn), strings.Join(fresh, " | ")))
+			}
+		}
+	}
+}
+
+// hitGuards: for a comma-ok lookup of a tstorage map, the conditions under which the function carries on after a
+// hit (instead of returning an error). Each way out of the hit region gives one conjunction like
+// "IsGeneric()=true & sameBase()=true".
+func hitGuards(fn *ssa.Function, lk *ssa.Lookup) []string {
+	var okv ssa.Value
+	for _, ref := range *lk.Referrers() {
+		if ex, ok := ref.(*ssa.Extract); ok && ex.Index == 1 {
+			okv = ex
+		}
+	}
+	if okv == nil {
+		return nil
+	}
+	var hit *ssa.BasicBlock
+	var iffBlock *ssa.BasicBlock
+	for _, ref := range *okv.Referrers() {
+		if iff, ok := ref.(*ssa.If); ok {
+			hit = iff.Block().Succs[0]
+			iffBlock = iff.Block()
+		}
+	}
+	if hit == nil {
+		return nil
+	}
+	isErrReturn := func(b *ssa.BasicBlock) bool {
+		ret, ok := b.Instrs[len(b.Instrs)-1].(*ssa.Return)
+		if !ok {
+			return false
+		}
+		for i, r := range ret.Results {
+			if core.IsErrorType(fn.Signature.Results().At(i).Type()) && !core.IsNilConst(r) {
+				return true
+			}
+		}
+		return false
+	}
+	describe := func(v ssa.Value) string {
+		var d func(v ssa.Value, depth int) string
+		d = func(v ssa.Value, depth int) string {
+			if depth > 4 {
+				return "…"
+			}
+			switch x := v.(type) {
+			case *ssa.Call:
+				if callee := x.Common().StaticCallee(); callee != nil {
+					return callee.Name() + "()"
+				}
+				if x.Common().IsInvoke() {
+					return x.Common().Method.Name() + "()"
+				}
+				return "call"
+			case *ssa.BinOp:
+				return d(x.X, depth+1) + x.Op.String() + d(x.Y, depth+1)
+			case *ssa.UnOp:
+				if x.Op == token.MUL {
+					return d(x.X, depth+1)
+				}
+				return x.Op.String() + d(x.X, depth+1)
+			case *ssa.FieldAddr:
+				st := x.X.Type().Underlying().(*types.Pointer).Elem().Underlying().(*types.Struct)
+				return "." + st.Field(x.Field).Name()
+			case *ssa.Field:
+				st := x.X.Type().Underlying().(*types.Struct)
+				return "." + st.Field(x.Field).Name()
+			case *ssa.Const:
+				return x.Value.String()
+			case *ssa.Extract:
+				return d(x.Tuple, depth+1)
+			case *ssa.Lookup:
+				return "lookup"
+			}
+			return "v"
+		}
+		return d(v, 0)
+	}
+	// walk the region from the hit block; stop at error returns and when leaving (a block the hit block does not dominate)
+	var out []string
+	seen := map[string]bool{}
+	var walk func(b *ssa.BasicBlock, conds []string, visited map[*ssa.BasicBlock]bool)
+	walk = func(b *ssa.BasicBlock, conds []string, visited map[*ssa.BasicBlock]bool) {
+		if visited[b] || len(visited) > 64 {
+			return
+		}
+		visited[b] = true
+		defer delete(visited, b)
+		if isErrReturn(b) {
+			return
+		}
+		leaves := !hit.Dominates(b) || b == iffBlock
+		if _, isRet := b.Instrs[len(b.Instrs)-1].(*ssa.Return); isRet {
+			leaves = true
+		}
+		if leaves {
+			var kept []string
+			for _, cd := range conds {
+				// loop-control conditions (index comparisons, range ok flags) say nothing about the entry
+				if strings.Contains(cd, "()") || strings.Contains(cd, ".") {
+					kept = append(kept, cd)
+				}
+			}
+			k := strings.Join(kept, " & ")
+			if k == "" {
+				k = "unconditional"
+			}
+			if !seen[k] {
+				seen[k] = true
+				out = append(out, k)
+			}
+			return
+		}
+		if iff, ok := b.Instrs[len(b.Instrs)-1].(*ssa.If); ok {
+			walk(b.Succs[0], append(append([]string{}, conds...), describe(iff.Cond)+"=true"), visited)
+			walk(b.Succs[1], append(append([]string{}, conds...), describe(iff.Cond)+"=false"), visited)
+			return
+		}
+		for _, sc := range b.Succs {
+			walk(sc, conds, visited)
+		}
+	}
+	walk(hit, nil, map[*ssa.BasicBlock]bool{})
+	sort.Strings(out)
+	return out
 }
 
 // ---------------------------------------------------------------- R02.4
 
 func checkExpansionsTypeCheck(c *core.Ctx) error {
-	r := c.NewRule("R02.4", "S2", "every expansion produced by the generator built from the current tree type-checks", 8)
-	names := fixtureNames(c)
+	r := c.NewRule("R02.4", "S2", "every expansion produced by the generator built from the current tree type-checks", 30)
+	// all go:generate fixtures in both tiers: the expansion is 20 s and the large examples are what exercises the
+	// rarely taken template branches
+	var names []string
 	exp, err := c.Expand(names)
 	if err != nil {
 		msg := err.Error()
@@ -553,7 +762,135 @@ func checkExpansionsTypeCheck(c *core.Ctx) error {
 		r.Note("skipped: %s", s)
 	}
 	r.Note("generated _test.go files (example tests) are not part of the loaded expansions")
+	checkFeatureMatrix(c)
 	return nil
+}
+
+// featureNames reads the feature table of package gen: every Feature literal's name and whether it is a default.
+func featureNames(c *core.Ctx) (all []string, isDefault map[string]bool, err error) {
+	pkgs, err := c.Load("./gen")
+	if err != nil {
+		return nil, nil, err
+	}
+	p := pkgs[0]
+	nameOf := map[types.Object]string{}
+	isDefault = map[string]bool{}
+	for _, f := range p.Syntax {
+		ast.Inspect(f, func(n ast.Node) bool {
+			vs, ok := n.(*ast.ValueSpec)
+			if !ok {
+				return true
+			}
+			for i, id := range vs.Names {
+				if i >= len(vs.Values) {
+					continue
+				}
+				cl, ok := vs.Values[i].(*ast.CompositeLit)
+				if !ok {
+					continue
+				}
+				t := p.TypesInfo.TypeOf(cl)
+				if t == nil {
+					continue
+				}
+				if named, ok := t.(*types.Named); ok && named.Obj().Name() == "Feature" && len(cl.Elts) > 0 {
+					e := cl.Elts[0]
+					if kv, ok := e.(*ast.KeyValueExpr); ok {
+						e = kv.Value
+					}
+					if bl, ok := e.(*ast.BasicLit); ok && bl.Kind == token.STRING {
+						if s, err := strconv.Unquote(bl.Value); err == nil {
+							nameOf[p.TypesInfo.Defs[id]] = s
+						}
+					}
+				}
+			}
+			return true
+		})
+	}
+	for _, f := range p.Syntax {
+		ast.Inspect(f, func(n ast.Node) bool {
+			vs, ok := n.(*ast.ValueSpec)
+			if !ok {
+				return true
+			}
+			for i, id := range vs.Names {
+				if id.Name != "DefaultFeatures" || i >= len(vs.Values) {
+					continue
+				}
+				if cl, ok := vs.Values[i].(*ast.CompositeLit); ok {
+					for _, e := range cl.Elts {
+						if eid, ok := e.(*ast.Ident); ok {
+							if s, ok := nameOf[p.TypesInfo.Uses[eid]]; ok {
+								isDefault[s] = true
+							}
+						}
+					}
+				}
+			}
+			return true
+		})
+	}
+	for _, s := range nameOf {
+		all = append(all, s)
+	}
+	sort.Strings(all)
+	if len(all) == 0 {
+		return nil, nil, fmt.Errorf("no gen.Feature literals found")
+	}
+	return all, isDefault, nil
+}
+
+// checkFeatureMatrix (R02.5, S2): config-less fixtures × feature variants — every single feature toggled, each of
+// the four generation targets alone, and everything enabled. A variant the generator rejects with a diagnostic is
+// fine; one that it accepts must type-check, and it must never fail on its own output.
+func checkFeatureMatrix(c *core.Ctx) {
+	r := c.NewRule("R02.5", "S2", "feature matrix: whatever feature set is chosen, a successful generation type-checks and the generator never chokes on its own output", 20)
+	all, isDefault, err := featureNames(c)
+	if err != nil {
+		r.Undecided("anchor:features", "-", err.Error())
+		return
+	}
+	var variants []core.Variant
+	for _, f := range all {
+		if isDefault[f] {
+			variants = append(variants, core.Variant{Name: "without " + f, Disable: []string{f}})
+		} else {
+			variants = append(variants, core.Variant{Name: "with " + f, Enable: []string{f}})
+		}
+	}
+	for _, f := range all {
+		if strings.HasPrefix(f, "paths/") || strings.HasPrefix(f, "webhooks/") {
+			variants = append(variants, core.Variant{Name: "only " + f, DisableAll: true, Enable: []string{f}})
+		}
+	}
+	variants = append(variants, core.Variant{Name: "everything", Enable: all})
+	fixtures := []string{"test_webhooks", "test_security"}
+	if c.Thorough() {
+		fixtures = []string{"test_webhooks", "test_security", "test_parameters", "test_http_responses", "test_http_requests", "test_form", "test_servers", "test_single_endpoint"}
+	}
+	r.Note("features read from gen: %d (%d default); variants: %d; fixtures: %v", len(all), len(isDefault), len(variants), fixtures)
+	res, err := c.ExpandVariants(fixtures, variants)
+	if err != nil {
+		r.Undecided("expand-variants", "-", trimPosMsg(err.Error(), 600))
+		return
+	}
+	rejected := 0
+	for _, x := range res {
+		key := fmt.Sprintf("variant:%s:%s", x.Fixture, x.Variant)
+		switch {
+		case x.GenErr != "" && x.Unparsable:
+			r.Fail(key, "S2:"+x.Fixture, fmt.Sprintf("with features [%s] the generator failed on its own output: %s", x.Variant, trimPosMsg(x.GenErr, 400)))
+		case x.GenErr != "":
+			rejected++
+			r.Pass(fmt.Sprintf("%s: rejected with a diagnostic (%s)", key, trimPosMsg(x.GenErr, 120)))
+		case len(x.TypeErrors) > 0:
+			r.Fail(key, "S2:"+x.Fixture, fmt.Sprintf("with features [%s] generation succeeded but the package does not type-check: %s", x.Variant, trimPosMsg(strings.Join(x.TypeErrors, "; "), 500)))
+		default:
+			r.Pass(fmt.Sprintf("%s: %d files, 0 go/types errors", key, x.Files))
+		}
+	}
+	r.Note("variants rejected with a diagnostic: %d of %d", rejected, len(res))
 }
 
 func trimPosMsg(s string, n int) string {
